@@ -472,6 +472,8 @@ func runC18(c *h.Ctx) {
 		}
 	}
 	offs = append(offs, 5*3600+1800, 5*3600+2700, -(3*3600 + 1800), -(9*3600 + 1800), 60, -60, 12*3600+2700, 59*60, -(59 * 60))
+	// (beyond every zone in use, within what PostgreSQL takes: up to 15:59)
+	offs = append(offs, 15*3600+1800, -(15*3600 + 2700), 15*3600+59*60, -(15*3600 + 60), 15*3600, -15*3600)
 	isLeap := func(y int) bool { return y%4 == 0 && (y%100 != 0 || y%400 == 0) }
 	i := 0
 	for _, y := range years {
